@@ -265,7 +265,8 @@ pub fn ro_ack_scenario(r: &mut Report, seed: u64, flagged: bool) {
 
 /// Part D: adaptive mode timeline (> 32 virtual minutes).
 /// variant 0 public reachable, 1 behind NAT, 2 reachable but responders vote a wrong address,
-/// 3 explicit server mode, 4 public_ip configured (adaptive)
+/// 3 explicit server mode, 4 public_ip configured (adaptive), 5 responders vote the true address for the
+/// first 5-7 minutes (the node confirms it) and a wrong one from then on, 6 the other way round
 pub fn adaptive_scenario(r: &mut Report, seed: u64, variant: usize) {
     r.eval();
     let mut rng = Rng::new(seed);
@@ -277,8 +278,9 @@ pub fn adaptive_scenario(r: &mut Report, seed: u64, variant: usize) {
     let mut boots = vec![net.boot];
     let mut liars: Vec<SockId> = vec![];
     let wrong = SocketAddrV4::new(Ipv4Addr::new(71, 9, 9, 9), 6881);
-    if variant == 2 {
-        // only lying raw responders as peers: they vote `wrong` as the node's address
+    let switch_at = w.now() + 5 * MIN + rng.below(120) * SEC;
+    if matches!(variant, 2 | 5 | 6) {
+        // only raw responders as peers: they vote `wrong` as the node's address (always / late / early)
         boots.clear();
         let ends: Vec<([u8; 20], SocketAddrV4)> = (0..3).map(|i| (rng.array(), SocketAddrV4::new(Ipv4Addr::new(72, 0, 0, 1 + i), 6881))).collect();
         for e in &ends {
@@ -287,13 +289,18 @@ pub fn adaptive_scenario(r: &mut Report, seed: u64, variant: usize) {
         }
         let (ends2, socks2) = (ends.clone(), liars.clone());
         w.set_responder(Some(Box::new(move |w, sock, d| {
+            let Some(idx) = socks2.iter().position(|s| *s == sock) else { return false };
             let Some(q) = Krpc::parse(&d.bytes) else { return true };
             if q.y != b'q' {
                 return true;
             }
-            let idx = socks2.iter().position(|s| *s == sock).unwrap_or(0);
             let rd = vec![("id", B::bytes(&ends2[idx].0)), ("nodes", B::Bytes(nodes_bytes(&ends2))), ("token", B::bytes(b"tokn"))];
-            let msg = response(&q.t, B::dict(rd), Some(&wrong), Some(&VERSION_RS6));
+            let lie = match variant {
+                5 => w.now() >= switch_at,
+                6 => w.now() < switch_at,
+                _ => true,
+            };
+            let msg = response(&q.t, B::dict(rd), Some(if lie { &wrong } else { &d.from }), Some(&VERSION_RS6));
             w.raw_send(sock, &msg.encode(), d.from);
             true
         })));
@@ -341,7 +348,7 @@ pub fn adaptive_scenario(r: &mut Report, seed: u64, variant: usize) {
         return;
     };
     match variant {
-        0 | 4 => {
+        0 | 4 | 6 => {
             if !info.server_mode() {
                 let why = if self_pings == 0 { "no-self-ping" } else if info.firewalled() { "still-firewalled" } else { "not-switched-at-refresh" };
                 r.violation(&format!("adaptive/reachable-node-stays-client/{why}"), "a node reachable at the address its peers report is still in client mode after 33 minutes", case.clone(), detail.clone());
@@ -365,9 +372,16 @@ pub fn adaptive_scenario(r: &mut Report, seed: u64, variant: usize) {
                 r.count("adaptive_switched_to_server");
             }
         }
-        1 | 2 => {
+        1 | 2 | 5 => {
+            if variant == 5 && !timeline.iter().any(|t| !t.2) {
+                r.count("adaptive_v5_never_confirmed");
+            }
             if timeline.iter().any(|t| t.1) {
-                let which = if variant == 1 { "behind-nat" } else { "wrongly-voted-address" };
+                let which = match variant {
+                    1 => "behind-nat",
+                    2 => "wrongly-voted-address",
+                    _ => "confirmed-then-wrongly-voted-address",
+                };
                 r.violation(&format!("adaptive/unreachable-node-became-server/{which}"), "a node whose reported address is not reachable switched to server mode", case.clone(), detail.clone());
             } else {
                 r.count("adaptive_stayed_client");
@@ -425,9 +439,10 @@ pub fn run(a: &Args) -> Report {
         super::guarded(&mut r, json!({"class":"ro-acks","seed":s.to_string(),"flagged":f}), |r| ro_ack_scenario(r, s, f));
     }
     for i in 0..per(80, 1600) {
-        let (s, v) = (rng.u64(), (i + a.shard) as usize % 5);
+        let (s, v) = (rng.u64(), (i + a.shard) as usize % 7);
         super::guarded(&mut r, json!({"class":"adaptive","seed":s.to_string(),"variant":v}), |r| adaptive_scenario(r, s, v));
         r.count("adaptive_timelines");
+        r.count(["adaptive_reachable", "adaptive_behind_nat", "adaptive_wrongly_voted", "adaptive_explicit_server", "adaptive_public_ip", "adaptive_confirmed_then_wrongly_voted", "adaptive_wrongly_voted_then_reachable"][v]);
     }
     r
 }
